@@ -23,14 +23,16 @@ STEPFN = ["second", "third", "fourth", "fifth", "sixth", "seventh"]
 
 def shards(tier, seed):
     out = [{"name": "thirty-keys", "kind": "keys", "weight": 2},
-           {"name": "caller-edits-first-answers", "kind": "coldedit", "weight": 1},
+           {"name": "caller-edits-first-answers", "kind": "coldedit", "cold": True, "weight": 1},
+           {"name": "cold-minors-first", "kind": "coldorder", "order": "minors-first", "cold": True, "weight": 1},
+           {"name": "cold-random-order", "kind": "coldorder", "order": "random", "cold": True, "weight": 1},
            {"name": "integers", "kind": "ints", "weight": 1}]
     ln = 3 if tier == "quick" else 4
     for first in ALPHA:
         out.append({"name": "strings-" + first, "kind": "strings", "first": first,
                     "group": first, "maxlen": ln, "weight": 6})
     for L in T.LETTERS:
-        out.append({"name": "diatonic-" + L, "kind": "diatonic", "letter": L, "after_history": L in "CE", "k": 3 if tier == "quick" else 5,
+        out.append({"name": "diatonic-" + L, "kind": "diatonic", "letter": L, "after_history": L in "CE", "before_history": L in "DG", "k": 3 if tier == "quick" else 5,
                     "weight": 4})
     return out
 
@@ -178,6 +180,15 @@ def run(shard, ctx):
                       exp[4], v, mechanism="diatonic-after-caller-edit")
             ctx.case(("cold-edit", name))
         ctx.sample({"edit": "reverse + append on the first get_notes('Eb') answer", "then get_notes('Eb')": keys.get_notes("Eb")})
+    elif kind == "coldorder":
+        ks = list(T.KEYS)
+        if shard["order"] == "minors-first":
+            ks = [k for k in ks if k[2] == "minor"] + [k for k in ks if k[2] == "major"]
+        else:
+            ctx.rng("order").shuffle(ks)
+        for (name, sig, mode) in ks:
+            check_key(ctx, name, sig, mode)
+        ctx.sample({"order": [k[0] for k in ks][:10]})
     elif kind == "ints":
         for i in list(range(-40, 41)) + [2 ** k for k in range(6, 40)] + [-2 ** k for k in range(6, 40)]:
             st, v = ctx.call(keys.get_key, i)
@@ -217,6 +228,10 @@ def run(shard, ctx):
         for (kname, sig, mode) in T.KEYS:
             knotes = T.key_notes(sig, mode == "minor")
             byletter = dict((x[0], x) for x in knotes)
+            # entering a new key with a call that must be refused (an invalid note), then the valid ones
+            st, v = ctx.call(intervals.second, "H", kname)
+            ctx.check("reject: an invalid note is refused by the diatonic functions", st == "exc", {"key": kname, "note": "H"}, "exception",
+                      repr(v), mechanism="reject:diatonic-note")
             for n in names:
                 for step in range(1, 7):
                     exp = byletter[T.LETTERS[(T.li(n) + step) % 7]]
